@@ -169,12 +169,22 @@ def _eval_expr(expr: ast.AST, env: Dict[str, object]):
         return f(l, r)
     if isinstance(expr, ast.IfExp):
         return eval_expr(expr.body, env) if eval_expr(expr.test, env) else eval_expr(expr.orelse, env)
+    if isinstance(expr, ast.JoinedStr):
+        out = []
+        for v in expr.values:
+            if isinstance(v, ast.Constant):
+                out.append(str(v.value))
+            elif isinstance(v, ast.FormattedValue) and v.format_spec is None and v.conversion == -1:
+                out.append(str(eval_expr(v.value, env)))
+            else:
+                raise Undecided(f"format spec in {norm(expr)}")
+        return "".join(out)
     if isinstance(expr, ast.Call) and isinstance(expr.func, ast.Name):
         fn = expr.func.id
         if fn == "abs" and len(expr.args) == 1:
             return abs(eval_expr(expr.args[0], env))
-        if fn in ("int", "float", "bool", "round") and len(expr.args) == 1:
-            return {"int": int, "float": float, "bool": bool, "round": round}[fn](
+        if fn in ("int", "float", "bool", "round", "str") and len(expr.args) == 1:
+            return {"int": int, "float": float, "bool": bool, "round": round, "str": str}[fn](
                 eval_expr(expr.args[0], env))
         if fn == "isinstance" and len(expr.args) == 2:
             v = eval_expr(expr.args[0], env)
